@@ -166,7 +166,7 @@ func init() {
 			}
 			return &HistCfg{Prop: "C12", Cases: tierN(ctx, 150, 1500), MinSteps: 6, MaxSteps: 20, TZs: tzs,
 				W:        Weights{"commit": 20, "write": 15, "add-all": 15, "log": 5, "config": 0},
-				Oracles:  []HistOracle{orC12},
+				Oracles:  []HistOracle{orC12, orC14, orC01}, ReadBackCommit: true,
 				Messages: genMessage}
 		})
 	checks["C11"] = histCheck("C11", []string{"C11.parseLine_format", "C11.parse_append", "C11.parseLines_snoc", "C11.get_agrees_with_listing", "C11.get_append_zero", "C11.get_append_succ", "C11.get_out_of_range", "C11.step_appends", "C11.run_prefix", "C11.shift", "C11.head0_commit", "C11.head0_switch", "C11.head0_reset", "C11.reset_refused"}, histRule+"; `reflog` is run after every commit/switch/reset/rename and compared with the listing before",
